@@ -11,6 +11,11 @@ from .sigcore import first_writes_from, is_err_write
 PREPARE_ADT = "s3s::ops::Prepare"
 
 
+def _is_prepare(ty):
+    """the type string of ops::Prepare, with or without generic arguments"""
+    return ty == PREPARE_ADT or ty.startswith(PREPARE_ADT + "<")
+
+
 def is_sig_check(t):
     d = callee_def(t)
     return d.startswith("s3s::ops::signature::SignatureContext") and short(d) == "check"
@@ -326,7 +331,7 @@ def rule_r5(chk, db, roles):
     for bi, t in body.calls():
         if t["callee"].get("trait") == roles.Operation and short(callee_def(t)) == "call":
             f = guards.dominating_facts(body, bi)
-            prep_s3 = any(x[0] == "enum" and x[1] == PREPARE_ADT and x[2] == frozenset(["S3"]) for x in f)
+            prep_s3 = any(x[0] == "enum" and _is_prepare(x[1]) and x[2] == frozenset(["S3"]) for x in f)
             prep_ok = any(x[0] == "enum" and "Result<s3s::ops::Prepare" in x[1] and x[2] == frozenset(["Ok"]) for x in f)
             chk.verdict(prep_s3 and prep_ok, "R5", "op-call-after-prepare", body.loc(bi), "Operation::call is reachable without prepare() having returned Ok(Prepare::S3)")
     # custom route
@@ -352,7 +357,7 @@ def rule_r5(chk, db, roles):
                     site = bi2
             if site is not None:
                 f = guards.dominating_facts(body, site)
-                ok2 = any(x[0] == "enum" and x[1] == PREPARE_ADT and x[2] == frozenset(["CustomRoute"]) for x in f)
+                ok2 = any(x[0] == "enum" and _is_prepare(x[1]) and x[2] == frozenset(["CustomRoute"]) for x in f)
                 chk.verdict(ok2, "R5", "route-only-under-CustomRoute", body.loc(site), "the custom-route future is built outside the Prepare::CustomRoute arm")
     # default check_access refuses anonymous
     dca = [b for b in db.grep("check_access") if b.crate == "s3s" and b.name.startswith(roles.S3Route + "::check_access")]
